@@ -129,6 +129,17 @@ func (v *Version) Compare(other *Version) int {
 		return releaseComparison
 	}
 
+	// A development release of the bare release (X.devN: no pre-release and no post-release segment)
+	// sorts before every pre-release of X (PEP 440: X.devN < XaN < XbN < XrcN < X < X.postN).
+	vDevOnly := v.prerelease == "" && v.postrelease == -1 && v.dev != -1
+	otherDevOnly := other.prerelease == "" && other.postrelease == -1 && other.dev != -1
+	if vDevOnly != otherDevOnly {
+		if vDevOnly {
+			return -1
+		}
+		return 1
+	}
+
 	preComparison := comparePrereleases(v.prerelease, v.preNumber, other.prerelease, other.preNumber)
 	if preComparison != 0 {
 		return preComparison
